@@ -541,12 +541,12 @@ func (d Driver) Run(c *core.Ctx) error {
 		run(tlc.Opts{Module: "Layout", Config: gcfg("rand", nt, c.Pick(80, 400), maxw, "{0, 1}", false), Seed: c.Seed + int64(nt)})
 	}
 	// mixed direction: right-to-left paragraphs with embedded left-to-right words in two faces (exhaustive)
-	for nt := 4; nt <= c.Pick(5, 7); nt++ {
+	for nt := 4; nt <= c.Pick(5, 6); nt++ {
 		run(tlc.Opts{Module: "Layout", Config: gcfg("bidi", nt, 0, maxw, "{0}", false)})
 	}
 	// narrow justified paragraphs of 9..14 words at 20..23 mm: lines that must be shrunk, many fitness classes in play
 	for _, nt := range []int{9, 11, 12, 14} {
-		run(tlc.Opts{Module: "Layout", Config: gcfg("para", nt, c.Pick(250, 4000), maxw, "{0}", false), Seed: c.Seed + int64(100+nt)})
+		run(tlc.Opts{Module: "Layout", Config: gcfg("para", nt, c.Pick(250, 1200), maxw, "{0}", false), Seed: c.Seed + int64(100+nt)})
 	}
 	wg.Wait()
 	c.Count(n, nontrivial, 0)
